@@ -53,8 +53,21 @@ class FakeWorld:
     """Collects the named predicates of the contract files so clauses can be evaluated natively."""
 
     def __init__(self):
+        import math
         self.ns = {"nlt": nlt, "lls": lls, "midCRLF": midCRLF, "cp": cp, "implies": implies,
-                   "ite": ite, "LTchar": lambda c: c in ("\r", "\n")}
+                   "ite": ite, "LTchar": lambda c: c in ("\r", "\n"),
+                   "is_bool": lambda v: isinstance(v, bool),
+                   "is_int": lambda v: isinstance(v, int) and not isinstance(v, bool),
+                   "is_float": lambda v: isinstance(v, float),
+                   "is_str": lambda v: isinstance(v, str),
+                   "is_none": lambda v: v is None,
+                   "is_other": lambda v: not isinstance(v, (bool, int, float, str, list, tuple, dict, set, bytes, type(None))),
+                   "is_finite_float": lambda v: isinstance(v, float) and math.isfinite(v),
+                   "is_integral_float": lambda v: isinstance(v, float) and math.isfinite(v) and v == int(v),
+                   "int_of": lambda v: int(v), "bool_of": lambda v: bool(v),
+                   "float_int_of": lambda v: int(v),
+                   "num_eq": lambda a, b: _num(a) and _num(b) and a == b,
+                   "same": lambda a, b: a is b or (type(a) is type(b) and a == b)}
         self.contracts = {}
         self.theories = []
         self.spec_funcs = {}
@@ -129,10 +142,52 @@ def build(v, hint=None):
         if "__float__" in v:
             return float(v["__float__"])
         if "__val__" in v:
-            raise Undecidable("abstract dynamic value")
+            return build_val(v["__val__"])
     if isinstance(v, list):
         return tuple(build(x) for x in v)
     return v
+
+
+class _Custom:
+    """stands for 'any other object'"""
+
+    def __str__(self):
+        return "custom"
+
+
+def build_val(d):
+    tg = d["tag"]
+    if tg == "none":
+        return None
+    if tg == "undefined":
+        from graphql.pyutils import Undefined
+        return Undefined
+    if tg == "bool":
+        return bool(d["bool"])
+    if tg == "int":
+        return int(d["int"])
+    if tg == "float":
+        f = d["float"]
+        if isinstance(f, str):
+            return float(f)
+        return f[0] / f[1]
+    if tg == "str":
+        return d.get("str", "")
+    if tg == "list":
+        return [None] * min(d.get("len", 0), 20)
+    if tg == "tuple":
+        return tuple([None] * min(d.get("len", 0), 20))
+    if tg == "dict":
+        return {}
+    if tg == "set":
+        return set()
+    if tg == "bytes":
+        return b""
+    return _Custom()
+
+
+def _num(v):
+    return isinstance(v, (int, float))
 
 
 def build_object(d):
